@@ -123,6 +123,12 @@ def run(module, cfg_lines, scratch, *, workers=4, timeout=600, simulate=None, de
 
 
 def _parse(out, res):
+    _parse_lines(out, res)
+    # TLC's workers export the cases in any order: a canonical order makes every sample drawn from them reproducible
+    res.records.sort(key=lambda r: json.dumps(r, sort_keys=True))
+
+
+def _parse_lines(out, res):
     cur = None
     in_trace = False
     pending = None
